@@ -237,12 +237,27 @@ class ConcEngine(object):
                     c.ret = clock[0]
             return body
 
+        ob = None
+        if prog.get("atom"):
+            from .single import AtomObserver
+            cids = [mdl.cid_of(c) for c in w.contents] + [mdl.resolve_cid(["x", k]) for k in range(3)]
+            ob = AtomObserver(w, w.mcontents, cids, mdl.algo)
+            w.run.observers.append(ob)
         stagger = prog.get("stagger") or []
         for ti, ops in enumerate(prog["tasks"]):
             store = w.fork_view() if mp else w.store
             sch.spawn(make_body(ti + 1, ops, store), start_after=stagger[ti] if ti < len(stagger) else 0)
         sch.run_all()
         w.run.sched = None
+        if ob is not None:
+            w.run.observers.remove(ob)
+            res.stats["probes"] = {"observation_points": ob.points}
+            res.stats["changed_points"] = sorted(ob.changed_points)
+            if ob.violation is not None:
+                res.violations.append(Violation({"C09"}, "atomicity", "atom:%s:conc" % ob.violation["kind"],
+                                                {"violation": ob.violation, "tasks": prog["tasks"],
+                                                 "setup": prog.get("setup", [])}))
+                return
         res.stats["decisions"] = sch.decision
         res.stats["switches"] = sch.switches
         res.stats["preempt"] = dict((str(k), v) for k, v in sch.preempt_out.items())
